@@ -150,6 +150,10 @@ pub fn new_egraph(mode: &J) -> EGraph {
         "proof" => EGraph::new_with_proofs(),
         _ => EGraph::default(),
     };
+    if enc == "reparse" {
+        // runs the printed, desugared, term-encoded program: reserved (internal) names must be accepted
+        eg.ensure_no_reserved_symbols(false);
+    }
     eg.set_num_threads(threads);
     if let Some(b) = mode["seminaive"].as_bool() {
         eg.seminaive = b;
@@ -322,6 +326,27 @@ fn sched_step(eg: &mut EGraph, sid: egglog::scheduler::SchedulerId, shared: &std
     (res, msg, upd, J::Array(out))
 }
 
+/// C11, fourth treatment: the command is resolved (typechecked, desugared, term-encoded) by `resolver`,
+/// printed, and the printed text is parsed and run by the plain engine `eg`.
+pub fn run_text_reparsed(eg: &mut EGraph, resolver: &mut EGraph, text: &str) -> (&'static str, Vec<CommandOutput>, String) {
+    let r = catch_unwind(AssertUnwindSafe(|| resolver.resolve_program(None, text)));
+    let cmds = match r {
+        Ok(Ok(c)) => c,
+        Ok(Err(e)) => return ("err", vec![], format!("resolve: {e}")),
+        Err(_) => return ("panic", vec![], "resolve_program panicked".to_string()),
+    };
+    let mut outs = vec![];
+    for c in cmds {
+        let printed = c.to_string();
+        let (res, o, msg) = run_text(eg, &printed);
+        outs.extend(o);
+        if res != "ok" {
+            return (res, outs, format!("{msg} [printed: {}]", printed.chars().take(200).collect::<String>()));
+        }
+    }
+    ("ok", outs, String::new())
+}
+
 fn strings(j: &J) -> Vec<String> {
     j.as_array().map(|a| a.iter().map(|x| x.as_str().unwrap_or("").to_string()).collect()).unwrap_or_default()
 }
@@ -329,8 +354,13 @@ fn strings(j: &J) -> Vec<String> {
 pub fn run_session(sess: &J, out: &mut TraceOut) -> Result<(), String> {
     let mut slots: Vec<EGraph> = vec![new_egraph(&sess["mode"])];
     let tables = strings(&sess["tables"]);
+    let reparse = sess["mode"]["enc"].as_str() == Some("reparse");
+    let mut resolver = if reparse { Some(EGraph::new_with_term_encoding()) } else { None };
     for s in strings(&sess["setup"]) {
-        let (res, _, msg) = run_text(&mut slots[0], &s);
+        let (res, _, msg) = match resolver.as_mut() {
+            Some(rz) => run_text_reparsed(&mut slots[0], rz, &s),
+            None => run_text(&mut slots[0], &s),
+        };
         if res != "ok" {
             return Err(format!("session {}: setup `{}` failed: {} {}", sess["id"], s, res, msg));
         }
@@ -384,6 +414,8 @@ pub fn run_session(sess: &J, out: &mut TraceOut) -> Result<(), String> {
             sched_json = sj;
             sched_upd = upd;
             (res, vec![], msg)
+        } else if let Some(rz) = resolver.as_mut() {
+            run_text_reparsed(&mut slots[slot], rz, text)
         } else {
             run_text(&mut slots[slot], text)
         };
@@ -473,6 +505,7 @@ pub fn main(args: &[String]) -> Result<(), String> {
     }
     let tr = out.truncated;
     let ev = out.finish();
-    println!("{{\"sessions\": {n}, \"events\": {ev}, \"truncated\": {tr}}}");
+    let pts = egglog_concurrency::verif::take_counts();
+    println!("{{\"sessions\": {n}, \"events\": {ev}, \"truncated\": {tr}, \"plans_single\": {}, \"plans_decomposed\": {}}}", pts[40], pts[41]);
     Ok(())
 }
